@@ -298,7 +298,18 @@ def style_job(job):
 
     def tab(d, c):
         return d.sheets[where[c][0]].tables[where[c][1]]
-    if twin == "preset-over":
+    if twin == "textonly-over":
+        # A: a style with a fill and non-default inset / wrapping; B: an API-created style whose CELL-level attributes are all the
+        # defaults (only font attributes given) - applied over A it must replace A's fill, inset, wrapping and alignment
+        from numbers_parser import RGB
+        sets["A"]["bg_image"] = None
+        sets["A"]["bg_color"] = RGB(30, 30 + idx % 50, 200)
+        sets["A"]["text_wrap"] = False
+        sets["A"]["text_inset"] = 8.0
+        dflt = Style()
+        for a in ("alignment", "bg_color", "bg_image", "first_indent", "left_indent", "right_indent", "text_inset", "text_wrap"):
+            sets["B"][a] = getattr(dflt, a)
+    elif twin == "preset-over":
         # a style with a fill and non-default inset / wrapping: what a preset style applied later must replace
         from numbers_parser import RGB
         sets["A"]["bg_image"] = None
@@ -571,6 +582,19 @@ def run(ctx):
             h += [{"op": "reopen"}]
         h += [{"op": "apply", "nm": "Body", "c": "c1"}, {"op": "save"}, {"op": "read", "c": "c1"}, {"op": "save"}, {"op": "reopen"}, {"op": "read", "c": "c2"}, {"op": "save"}]
         sjobs.append((400000 + j, h, ctx.seed * 13 + j, ctx.scratch, "preset-over"))
+    # the same with an API-created style that only sets font attributes
+    for j in range(6 if q else 60):
+        h = [{"op": "add", "nm": "Named" if j % 2 else "AUTO", "a": "A"}]
+        first = "Named" if j % 2 else "Custom Style 1"
+        second = "Custom Style 1" if j % 2 else "Custom Style 2"
+        h += [{"op": "apply", "nm": first, "c": "c1"}, {"op": "apply", "nm": first, "c": "c2"}]
+        if j % 3 >= 1:
+            h += [{"op": "save"}]
+        if j % 3 == 2:
+            h += [{"op": "reopen"}]
+        h += [{"op": "add", "nm": "AUTO", "a": "B"}, {"op": "apply", "nm": second, "c": "c1"}, {"op": "save"}, {"op": "read", "c": "c1"}, {"op": "save"},
+              {"op": "reopen"}, {"op": "read", "c": "c2"}, {"op": "save"}]
+        sjobs.append((500000 + j, h, ctx.seed * 17 + j, ctx.scratch, "textonly-over"))
     strs = fixtures.pmap(style_job, sjobs, ctx.workers, chunksize=4)
     ctx.evaluations += len(strs)
     for t in strs:
